@@ -194,7 +194,11 @@ class C07(Check):
                 yield ("sp", ("a", o, "b", ",", "c", o, "d"))
         for t in ("( )", "( a , )", "( a , b )", "( a , b , )", "( ( a , b ) , c )",
                   "( a , ( b , c ) )", "a , b", "a , b , c", "a ,", "( a )", "( ( a ) )",
-                  "( a , b ) , c", "f ( a , ( b , c ) , k = ( d , e ) )"):
+                  "( a , b ) , c", "f ( a , ( b , c ) , k = ( d , e ) )",
+                  # a comma after a tuple that its parenthesis has already closed
+                  "( ( a , b ) , )", "( a , b ) ,", "( ( ) , )", "( ) ,", "( ( a , ) , )",
+                  "( a , ) ,", "f ( ( a , b ) , )", "( ( a , b ) , ) + ( c , )",
+                  "arr [ ( a , b ) , ]", "( ( a , b ) , ( c , d ) , )"):
             yield ("sp", tuple(t.split()))
 
     LITS = ("2", "10", "007", "2.5", "2.", ".5", "0.5", "1e3", "1E3", "1e-3", "2.5e+2", "1.e2",
